@@ -1130,10 +1130,14 @@ def share(run: Run, rule: str, module, src_rules: Sequence[str], prefix: bool = 
     double work): a property only ever imports another property's OWN rule instances."""
     if getattr(run, "is_sub", False):
         return
-    sub = Run(run.prop, run.tier, run.tree, quiet=True)
-    sub.is_sub = True
-    module.check(sub)
-    run.evaluations += sub.evaluations
+    cache = run.__dict__.setdefault("_share_cache", {}) if hasattr(run, "__dict__") else {}
+    sub = cache.get(module.__name__)
+    if sub is None:                                      # one sub-run per shared module and run: several obligations may import from the same module
+        sub = Run(run.prop, run.tier, run.tree, quiet=True)
+        sub.is_sub = True
+        module.check(sub)
+        cache[module.__name__] = sub
+        run.evaluations += sub.evaluations
     run.count(1, rule)
     match = (lambda r: any(r.startswith(x) for x in src_rules)) if prefix else (lambda r: r in src_rules)
     for f in sub.findings:
